@@ -333,7 +333,7 @@ def abstract(case, obs, result, tables, tid):
 
 
 # ------------------------------------------------------- rows for relational laws
-def law_rows(case, result, tables, with_cells=True):
+def law_rows(case, result, tables, with_cells=True, keymap=None):
     """Result rows as <<l, r, k, a, b, o, n, m, cells...>> (see spec/TraceLaws.tla)."""
     if result is None:
         return None
@@ -371,7 +371,10 @@ def law_rows(case, result, tables, with_cells=True):
             a, b = toks(lv), toks(rv)
             o, n, m = len(a & b), len(a), len(b)
         sc = score_code(row[cix['_sim_score']], meas) if '_sim_score' in cix else [0, 0, 0]
-        out = [key_code(l), key_code(r)] + sc + [o, n, m]
+        if keymap is not None:
+            out = [keymap.get(l, -1), keymap.get(r, -1)] + sc + [o, n, m]
+        else:
+            out = [key_code(l), key_code(r)] + sc + [o, n, m]
         if with_cells:
             out += [stable_code(row[j]) for j in cell_cols]
         rows.append(out)
